@@ -199,14 +199,23 @@ class Evaluator:
         except (KeyError, IndexError, TypeError) as e:
             raise Raised(type(e).__name__)
 
+    def _elts(self, elts):
+        out = []
+        for e in elts:
+            if isinstance(e, ast.Starred):
+                out.extend(self.ev(e.value))
+            else:
+                out.append(self.ev(e))
+        return out
+
     def _Tuple(self, n):
-        return tuple(self.ev(e) for e in n.elts)
+        return tuple(self._elts(n.elts))
 
     def _List(self, n):
-        return [self.ev(e) for e in n.elts]
+        return self._elts(n.elts)
 
     def _Set(self, n):
-        return {self.ev(e) for e in n.elts}
+        return set(self._elts(n.elts))
 
     def _Dict(self, n):
         out = {}
